@@ -26,8 +26,33 @@ def on_line(code, line):
     return mon.DISABLE
 
 
+branches = {}     # (filename, lineno of the branch instruction) -> set of destination line numbers
+
+
+def _line_of(code, offset):
+    best = code.co_firstlineno
+    for start, line in dis.findlinestarts(code):
+        if start > offset:
+            break
+        if line is not None:
+            best = line
+    return best
+
+
+def on_branch(code, src, dst):
+    fn = code.co_filename
+    if fn.startswith(REPO + "/synapgrad"):
+        key = (fn, _line_of(code, src), src)
+        d = branches.setdefault(key, set())
+        d.add(dst)
+        if len(d) >= 2:
+            return mon.DISABLE
+
+
+import dis  # noqa: E402
 mon.register_callback(TOOL, mon.events.LINE, on_line)
-mon.set_events(TOOL, mon.events.LINE)
+mon.register_callback(TOOL, mon.events.BRANCH, on_branch)
+mon.set_events(TOOL, mon.events.LINE | mon.events.BRANCH)
 
 from synverif import run  # noqa: E402
 
@@ -73,6 +98,20 @@ for root, _, files in os.walk(os.path.join(REPO, "synapgrad")):
         for owner, ls in by.items():
             rep.append(f"   {owner or '<module>'}: " + "; ".join(f"{l}: {lines[l - 1].strip()[:70]}" for l in ls[:12])
                        + (f" ... (+{len(ls) - 12})" if len(ls) > 12 else ""))
+# branch sites at which only ONE direction was ever taken
+rep.append("")
+rep.append("== conditional branches of the library that only ever went one way under the checks")
+one_way = sorted((fn, line) for (fn, line, src), d in branches.items() if len(d) == 1)
+seen_lines = set()
+for fn, line in one_way:
+    if (fn, line) in seen_lines:
+        continue
+    seen_lines.add((fn, line))
+    src_line = open(fn).read().splitlines()[line - 1].strip()
+    nxt = open(fn).read().splitlines()[line].strip() if line < len(open(fn).read().splitlines()) else ""
+    if "raise " in src_line or nxt.startswith("raise ") or "device" in src_line.lower():
+        continue        # argument-type / device rejections
+    rep.append(f"   {os.path.relpath(fn, REPO)}:{line}: {src_line[:110]}")
 os.makedirs(os.path.join(VERIF, "out"), exist_ok=True)
 open(os.path.join(VERIF, "out", "libcov.txt"), "w").write("\n".join(rep) + f"\nTOTAL {cov}/{tot}\n")
 print(f"TOTAL {cov}/{tot} statements of synapgrad executed by {' '.join(props)}; details in out/libcov.txt")
